@@ -350,6 +350,35 @@ Proof. split; vm_compute; reflexivity. Qed.
 Lemma inventory_closed_lemma : inventory_closed_b = true.
 Proof. vm_compute; reflexivity. Qed.
 
+(* ------------------------------------------------------------------ stored vs. handle configuration *)
+Lemma failed_enable_handle_tracks_store_lemma : forall f s,
+  let s' := config_step config_set_before_save config_cold_before_hot f true s in
+  c_cold s' = true -> c_handle s' = true.
+Proof. intros f s; destruct f, s as [c h m]; destruct c, h, m; vm_compute; auto. Qed.
+
+Lemma failed_enable_still_refuses_lemma : forall f s e v pl g,
+  let s' := config_step config_set_before_save config_cold_before_hot f true s in
+  c_cold s' = true -> is_hotcold e = false ->
+  f_guard (entry_facts e) = Some g -> forallb (holds v) g = true ->
+  run_entry (entry_facts e) (c_handle s') v pl = (Refused, []).
+Proof.
+  intros f s e v pl g s' Hc Hh Hg Hv. subst s'.
+  rewrite (failed_enable_handle_tracks_store_lemma f s Hc).
+  destruct (run_entry (entry_facts e) true v pl) as [r effs] eqn:Hr.
+  destruct (run_entry_refusal _ _ _ _ _ _ (all_dominated e Hh) Hr) as [[_ H1] H2].
+  assert (r = Refused) by (apply H1; exists g; split; [assumption | unfold guard_fires; now rewrite Hv]).
+  subst. now rewrite (H2 eq_refl).
+Qed.
+
+(* the full-strength statement (any direction of the change) does not hold for the code as it is:
+   disabling append-only, first write fails -> the store still says append-only, the handle does not *)
+Lemma failed_disable_unlocks_handle_refuted_lemma :
+  config_set_before_save = true ->
+  exists f s, c_handle s = c_cold s /\ c_hot s = c_cold s /\
+    let s' := config_step config_set_before_save config_cold_before_hot f false s in
+    c_cold s' = true /\ c_handle s' = false.
+Proof. intros H; rewrite H. exists FailFirst, (mk_cfg true true true). vm_compute; auto. Qed.
+
 (* ------------------------------------------------------------------ examples (non-vacuity) *)
 Definition ex_hash (d : N) : id := (1000 + d)%N.
 
